@@ -53,6 +53,8 @@ def shapes(tier):
     out.append({"what": "dispatch"})
     for N in (1, 2, 3, 4):
         out.append({"what": "reads", "N": N})
+    # history: the same file name held another table in other units, which was read before
+    out.append({"what": "reads", "N": 2, "history": "file_rewritten"})
     return out
 
 
@@ -286,6 +288,13 @@ def _helpers_shims(st, hm):
             hm.log.append(("remove", p))
             del hm.files[p]
         osm.remove = remove
+        osm.unlink = remove
+
+        def replace(src, dst):
+            hm.log.append(("replace", src, dst))
+            hm.files[dst] = hm.files.pop(src)
+        osm.replace = replace
+        osm.rename = replace
         sh["os"] = osm
     return sh
 
@@ -436,12 +445,21 @@ def _run_reads(shape, res, sink):
 
     def harness():
         S.reset()
-        S.make_units()
-        lib, lnp = S.library(N, with_lnp=True)
-        fn = S.as_file(lib, lnp)
         u_ = S.st.utils
         cols = ["s", "P", "ln_prior"]
         tgt = {"P": units.day, "s": units.km / units.s}
+        if shape.get("history"):
+            S._pu, S._su = units.sym_unit("preP", units.day), units.sym_unit("pres", units.km / units.s)
+            S._ou, S._mu = units.sym_unit("preO", units.rad), units.sym_unit("preM", units.rad)
+            libA, lnpA = S.library(N, with_lnp=True, tag="pre")
+            fnA = S.as_file(libA, lnpA)
+            u_.read_batch_slice(fnA, cols, slice(0, N), units=tgt)
+            u_.read_batch_idx(fnA, cols, symnp.SymArray(symnp._obj(list(range(N))), symnp._I8), units=tgt)
+            u_.read_random_batch(fnA, cols, 1, units=tgt, rng=env.SymRng(S.w))
+            S.w.streams.clear()
+        S.make_units()
+        lib, lnp = S.library(N, with_lnp=True)
+        fn = S.as_file(lib, lnp)
         rng = env.SymRng(S.w)
         start = core.integer("start")
         stop = core.integer("stop")
@@ -586,9 +604,16 @@ def replay(cand):
         one.write(fn1)
         if len(JokerSamples.read(fn1)) != 1:
             bad.append("single-row table does not round trip")
-        # batch reads
+        # batch reads (history: the file name just held the same table with P in days / K in km/s and was read; now other units)
         cols = ["s", "P"]
         tgt = {"P": u.year, "s": u.km / u.s}
+        read_batch(fn, cols, (0, 3), units=tgt)
+        read_batch(fn, cols, np.array([1, 0]), units=tgt)
+        read_batch(fn, cols, 2, units=tgt, rng=np.random.default_rng(0))
+        s2 = s.copy()
+        s2.tbl["P"] = s["P"].to(u.hour)
+        s2.tbl["s"] = s["s"].to(u.m / u.s)
+        s2.write(fn, overwrite=True)
         full = np.stack([s["s"].to_value(u.km / u.s), s["P"].to_value(u.year)], axis=1)
         if not np.allclose(read_batch(fn, cols, (2, 5), units=tgt), full[2:5], rtol=1e-13):
             bad.append("read_batch(range) returns other rows / units")
